@@ -26,6 +26,7 @@ mkdir -p $W/verif
 rsync -a --exclude 'target*' --exclude logs --exclude evidence --exclude replays --exclude .git /verif/ $W/verif/
 sed -i "s#path = \"/repo\"#path = \"$W/repo\"#" $W/verif/harness/Cargo.toml $W/verif/replay-native/Cargo.toml
 cd $W/verif
+export VERIF_REPO=$W/repo
 ./verif.py check $prop "$@" > $W/check.log 2>&1
 rc=$?
 echo "check_rc=$rc" >> $res
